@@ -3,13 +3,22 @@
 # --phc-ref-id <refid argument> and a --phc-interface that resolves (inside the private mount namespace) to a fake
 # uevent file; a stand-in chronyd (`cbharness fakechronyd`) reports a fixed synchronised measurement with the given reference
 # id, stratum and source address; the PHC's error-bound attribute holds <phc value>.
+# <phc value> = an integer, or bad0..bad4: an attribute that is no integer (empty, "N/A", a unit suffix, NUL padding, hexadecimal)
 #   usage: phc_run.sh <clockbound binary> <harness binary> <refid argument as it is typed> <chrony refid u32> <stratum> <ipv4 word|0> <phc value>
 #   -> "pub <bound_nsec> <status>" (first complete record whose status is not Unknown) | "exited <rc>" | "none"
 exec unshare -m sh -c '
 mount -t tmpfs tmpfs /run || exit 99
 mount -t tmpfs tmpfs /sys/bus/pci/devices || exit 97
 mkdir -p /sys/bus/pci/devices/0000:00:05.0 /run/fakeif/device /run/chrony
-echo "$7" > /sys/bus/pci/devices/0000:00:05.0/phc_error_bound
+f=/sys/bus/pci/devices/0000:00:05.0/phc_error_bound
+case "$7" in
+  bad0) : > $f;;
+  bad1) echo "N/A" > $f;;
+  bad2) echo "12345 ns" > $f;;
+  bad3) printf "12345\\000\\000\\n" > $f;;
+  bad4) echo "0x3039" > $f;;
+  *) echo "$7" > $f;;
+esac
 printf "DRIVER=ena\nPCI_SLOT_NAME=0000:00:05.0\n" > /run/fakeif/device/uevent
 "$2" fakechronyd /run/chrony/chronyd.sock "$4" 0 30 "$5" "$6" </dev/null >/dev/null 2>&1 &
 sp=$!
